@@ -17,6 +17,27 @@ func cmdParseObs(s string) W {
 	return WOk(WStr(string(c)))
 }
 
+// joinObs: base.Join(l...) as the caller sees it: the result, unless the call modified the caller's slice or
+// (for the top command) command.New(l...) gives something else
+func joinObs(base string, l []string) (W, W) {
+	saved := append([]string{}, l...)
+	r := string(command.Command(base).Join(l...))
+	obs := WStr(r)
+	for i := range saved {
+		if l[i] != saved[i] {
+			obs = WStr("<Join modified the caller's slice>")
+			copy(l, saved)
+			break
+		}
+	}
+	if base == "/" {
+		if r2 := string(command.New(saved...)); r2 != r {
+			obs = WStr("<command.New gives " + r2 + ">")
+		}
+	}
+	return WStrs(saved), obs
+}
+
 func genCommand(c *Ctx) {
 	// 1. small-scope exhaustive: commands with <= 3 segments over {a, ab, b, ""} (+ top, + a few invalid)
 	segAlpha := []string{"a", "ab", "b", ""}
@@ -66,7 +87,8 @@ func genCommand(c *Ctx) {
 	recl(nil, 3)
 	for _, base := range []string{"/", "/a", "/a/b", "/ab", "/x/y/z"} {
 		for _, l := range lists {
-			c.Emit("join/exh", WList(WStr("join"), WStr(base), WStrs(l)), WStr(string(command.Command(base).Join(l...))))
+			in, obs := joinObs(base, l)
+			c.Emit("join/exh", WList(WStr("join"), WStr(base), in), obs)
 		}
 	}
 	// 2b. non-ASCII text: cased letters of every kind (upper, title case, letter-like numbers and symbols),
@@ -84,6 +106,23 @@ func genCommand(c *Ctx) {
 			{"/" + f[0], "/" + f[0] + "/y"}, {"/" + f[0], "/" + f[0] + f[1]}} {
 			for _, ab := range [][2]string{pr, {pr[1], pr[0]}} {
 				c.Emit("covers/unicode", WList(WStr("covers"), WStr(ab[0]), WStr(ab[1])), WBool(command.Command(ab[0]).Covers(command.Command(ab[1]))))
+			}
+		}
+	}
+	// 3b. segments that look like path syntax (".", "..", embedded and trailing slashes), empty segments before
+	// non-empty ones, and the same slice used for two calls
+	odd := []string{".", "..", "a//b", "a/", "/a", "", "read", "é"}
+	for _, base := range []string{"/", "/crud", "/a/b"} {
+		for _, x := range odd {
+			for _, y := range odd {
+				l := []string{x, y}
+				in, obs := joinObs(base, l)
+				c.Emit("join/odd", WList(WStr("join"), WStr(base), in), obs)
+				in, obs = joinObs(base, l) // second use of the same slice
+				c.Emit("join/odd", WList(WStr("join"), WStr(base), in), obs)
+				l3 := []string{x, "seg", y}
+				in, obs = joinObs(base, l3)
+				c.Emit("join/odd", WList(WStr("join"), WStr(base), in), obs)
 			}
 		}
 	}
@@ -117,7 +156,8 @@ func genCommand(c *Ctx) {
 			for j := range l {
 				l[j] = c.R.Str("abc", 3)
 			}
-			c.Emit("join/rnd", WList(WStr("join"), WStr(base), WStrs(l)), WStr(string(command.Command(base).Join(l...))))
+			in, obs := joinObs(base, l)
+			c.Emit("join/rnd", WList(WStr("join"), WStr(base), in), obs)
 		}
 	}
 }
